@@ -32,6 +32,8 @@ type Config struct {
 	CliDirect     bool   `json:"cd,omitempty"`
 	CliBuf        int    `json:"cbuf,omitempty"`
 	Frag          int    `json:"frag,omitempty"`
+	TLS           bool   `json:"tls,omitempty"`
+	How           string `json:"how,omitempty"` // "" = Options with constructors; "optnames"; "both" (names + conflicting constructors); "names" (Listen/Dial)
 	Tap           bool   `json:"-"`
 	Retain        bool   `json:"-"`
 	Pushes        []int  `json:"-"`
@@ -51,6 +53,10 @@ func (c Config) String() string {
 	f(c.SrvPoll, "poll")
 	f(c.CliPipelining, "cp")
 	f(c.CliDirect, "cd")
+	f(c.TLS, "tls")
+	if c.How != "" {
+		s += "+how=" + c.How
+	}
 	if c.SrvBuf > 0 {
 		s += fmt.Sprintf("+sbuf%d", c.SrvBuf)
 	}
@@ -75,19 +81,70 @@ type Rig struct {
 	lisRet bool
 }
 
-// Options returns the rpc.Options both sides use.
-func (r *Rig) Options() *rpc.Options {
-	o := &rpc.Options{
-		NewCodec:         svc.NewCodec(r.Cfg.Codec),
-		NewHeaderEncoder: svc.NewEncoder(r.Cfg.Header),
-		ClientBufferSize: r.Cfg.CliBuf,
+// Options returns the client-side rpc.Options.
+func (r *Rig) Options() *rpc.Options { return r.options(false) }
+
+// codecName returns the registry name of the body codec ("bytes" is
+// registered by the harness).
+func codecName(c string) string { return c }
+
+func otherCodec(c string) func() rpc.Codec {
+	if c == svc.CodecJSON {
+		return svc.NewCodec(svc.CodecPB)
 	}
-	if r.Cfg.Network == "mem" || r.Cfg.Network == "" {
-		o.NewSocket = r.Net.NewSocket
-	} else {
+	return svc.NewCodec(svc.CodecJSON)
+}
+
+func otherEncoder(h string) func() rpc.Encoder {
+	if h == "json" {
+		return svc.NewEncoder("pb")
+	}
+	return svc.NewEncoder("json")
+}
+
+func (r *Rig) options(server bool) *rpc.Options {
+	o := &rpc.Options{ClientBufferSize: r.Cfg.CliBuf}
+	if r.Cfg.TLS {
+		if server {
+			o.TLSConfig = rpc.DefalutServerTLSConfig()
+		} else {
+			o.TLSConfig = rpc.SkipVerifyTLSConfig()
+		}
+	}
+	mem := r.Cfg.Network == "mem" || r.Cfg.Network == ""
+	hdrName := r.Cfg.Header
+	if hdrName == "default" {
+		hdrName = ""
+	}
+	switch r.Cfg.How {
+	case "optnames":
 		o.Network = r.Cfg.Network
+		o.Codec = codecName(r.Cfg.Codec)
+		o.HeaderEncoder = hdrName
+	case "both":
+		// names select; the constructors name something else and must lose
+		o.Network = r.Cfg.Network
+		o.NewSocket = rpc.NewSocket("inproc")
+		o.Codec = codecName(r.Cfg.Codec)
+		o.NewCodec = otherCodec(r.Cfg.Codec)
+		o.HeaderEncoder = hdrName
+		if hdrName != "" {
+			o.NewHeaderEncoder = otherEncoder(hdrName)
+		}
+	default:
+		o.NewCodec = svc.NewCodec(r.Cfg.Codec)
+		o.NewHeaderEncoder = svc.NewEncoder(r.Cfg.Header)
+		if mem {
+			o.NewSocket = r.Net.NewSocket
+		} else {
+			o.NewSocket = rpc.NewSocket(r.Cfg.Network)
+		}
 	}
 	return o
+}
+
+func init() {
+	rpc.RegisterCodec(svc.CodecBytes, func() rpc.Codec { return &rpc.BYTESCodec{} })
 }
 
 // NewServer builds a server in the configured modes with the handlers registered.
@@ -123,7 +180,15 @@ func Start(cfg Config, n *memnet.Net, addr string, seed int64) *Rig {
 	r.Ledger.Retain = cfg.Retain
 	r.Server = NewServer(cfg, r.Ledger)
 	go func() {
-		err := r.Server.ListenWithOptions(addr, r.Options())
+		var err error
+		switch {
+		case cfg.How == "names" && cfg.TLS:
+			err = r.Server.ListenTLS(cfg.Network, addr, codecName(cfg.Codec), rpc.DefalutServerTLSConfig())
+		case cfg.How == "names":
+			err = r.Server.Listen(cfg.Network, addr, codecName(cfg.Codec))
+		default:
+			err = r.Server.ListenWithOptions(addr, r.options(true))
+		}
 		r.mu.Lock()
 		r.lisErr, r.lisRet = err, true
 		r.mu.Unlock()
@@ -144,7 +209,7 @@ func (r *Rig) Dial() (*rpc.Conn, error) {
 	var conn *rpc.Conn
 	var err error
 	for i := 0; i < 2000; i++ {
-		conn, err = rpc.DialWithOptions(r.Addr, r.Options())
+		conn, err = r.DialOnce()
 		if err == nil {
 			break
 		}
@@ -155,6 +220,17 @@ func (r *Rig) Dial() (*rpc.Conn, error) {
 	}
 	SetClientModes(conn, r.Cfg)
 	return conn, nil
+}
+
+// DialOnce makes one connection attempt in the configured style (modes not applied).
+func (r *Rig) DialOnce() (*rpc.Conn, error) {
+	switch {
+	case r.Cfg.How == "names" && r.Cfg.TLS:
+		return rpc.DialTLS(r.Cfg.Network, r.Addr, codecName(r.Cfg.Codec), rpc.SkipVerifyTLSConfig())
+	case r.Cfg.How == "names":
+		return rpc.Dial(r.Cfg.Network, r.Addr, codecName(r.Cfg.Codec))
+	}
+	return rpc.DialWithOptions(r.Addr, r.Options())
 }
 
 // SetClientModes applies the client-side modes of cfg to conn.
